@@ -76,6 +76,11 @@ class IkeSaController:
             logging.info(f'IKE SA={ike_sa.new_ike_sa} created by rekey. Count={len(self.ike_sas)}')
             ike_sa.new_ike_sa = None
 
+        # if the IKE_SA_INIT request was ignored (e.g. wrong flags or Message ID), forget the IKE_SA created for it
+        if ike_sa.state == IkeSa.State.INITIAL:
+            self.ike_sas.remove(ike_sa)
+            logging.info(f'Discarded IKE_SA={ike_sa} as its IKE_SA_INIT request was ignored. Count={len(self.ike_sas)}')
+
         # if the IKE_SA needs to be closed
         if ike_sa.state == IkeSa.State.DELETED:
             ike_sa.delete_child_sas()
